@@ -24,6 +24,10 @@ ALPHAS = {
 BENCH_TYPES = {'INPUT', 'NOT', 'AND', 'OR', 'NAND', 'NOR', 'XOR', 'NXOR', 'IFF'}
 
 
+def VARIANT_PRED(t, v):
+    return ('n' in t and t['n'] + t['k'] <= 3) or (t.get('kind') == 'hist' and t.get('start') == 'S6')
+
+
 def plan(tier):
     t = []
     fams = [(1, 1, 'FULL', 0, 'all', 2), (1, 2, 'FULL', 1, 'all', 2), (2, 1, 'FULL', 1, 'all', 2),
@@ -36,6 +40,10 @@ def plan(tier):
         for tk in space.tasks(n, k, ALPHAS[a], split):
             tk.update(alpha=a, pol=pol, nblocks=nb)
             t.append(tk)
+    for pat in ('cmp', 'lr', 'xor-nor', 'or3'):
+        for L in space.DEEP_LENGTHS[tier]:
+            for st in ('fwd', 'rev'):
+                t.append({'kind': 'deep', 'pattern': pat, 'L': L, 'storage': st})
     from vmc import history
 
     for s in HIST_STARTS:
@@ -48,7 +56,7 @@ def describe(tier):
     return {
         'rule': 'E1: every circuit of F(n>=1,k,A) x output policy x block placement (no block; one block over every '
         'non-empty subset of gate nodes; with nblocks=2 every ordered pair of such blocks) -> into_bench(), and '
-        'into_graphviz_digraph(as_bench=True) once per circuit; for last-gate outputs without blocks a second conversion after removing and re-adding the rewritten sink gate. KO family = constants carrying 1-2 operands. E2 (no state merging): every history of public mutator calls (the C02 menu without compositions: construction, removal, renaming, interface, replace_inputs, blocks, into_bench, copy, replace_subcircuit) up to the stated length from 5 start states (incl. one holding every non-bench shape), each followed by into_bench(), compared with the netlist just before the conversion. '
+        'into_graphviz_digraph(as_bench=True) once per circuit; for last-gate outputs without blocks a second conversion after removing and re-adding the rewritten sink gate. KO family = constants carrying 1-2 operands. Deep: chains of 1200/3000 (7000) comparison / L*R* / mixed gates, stored operands-first and users-first. Generated-name collision: per circuit, a second conversion after adding a user gate named like each helper the first conversion invented (random suffix stripped). E2 (no state merging): every history of public mutator calls (the C02 menu without compositions: construction, removal, renaming, interface, replace_inputs, blocks, into_bench, copy, replace_subcircuit) up to the stated length from 5 start states (incl. one holding every non-bench shape), each followed by into_bench(), compared with the netlist just before the conversion. '
         'distinct = distinct (types before, helper gates added) outcomes.',
         'bounds': {
             'quick': 'F(1,<=2,FULL), F(2,1,FULL) all policies + block pairs; F(2,2,FULL), F(3,1,FULL), F(2,2,KO) core '
@@ -169,6 +177,82 @@ def _reconvert(n, gates, outs, acc, c, net, ref, case):
         acc.violation('into_bench/second-conversion-changes-function', case, '')
 
 
+import re
+
+_HEX32 = re.compile(r'[0-9a-f]{32}$')
+
+
+def check_name_collision(n, gates, outs, acc):
+    """Generated-name collision: convert once, take the helper labels the library invented, strip their
+    32-digit random suffix, and convert the circuit again after a user gate with exactly that name (computing
+    something else) was added.  Sound because any label is legal for a user gate."""
+    from cirbo.core.circuit import gate as G
+
+    labs = space.labels(n, len(gates))
+    c0 = space.build(n, gates, outs)
+    try:
+        c0.into_bench()
+    except Exception:  # noqa: BLE001
+        return
+    helpers = [l for l in c0.gates if l not in labs]
+    names = list(dict.fromkeys(_HEX32.sub('', h) for h in helpers))
+    for name in names:
+        for t, ops in (('IFF', (labs[0],)), ('AND', (labs[0], labs[n - 1]))):
+            acc.transitions += 1
+            acc.traces += 1
+            case = lambda: {**space.spec_json(n, gates, outs), 'user_gate_named_like_a_helper': name, 'user_gate': [t, list(ops)]}  # noqa: E731
+            c = space.build(n, gates, outs)
+            c.emplace_gate(name, getattr(G, t), ops)
+            c.mark_as_output(name)
+            net = refmodel.abstract(c)
+            ref = net.tables()
+            ok, _ = guarded(acc, 'into_bench', case, c.into_bench)
+            if not ok:
+                continue
+            rnet = refmodel.abstract(c)
+            if rnet.inputs != net.inputs or rnet.outputs != net.outputs:
+                acc.violation('into_bench/interface-changed', case, f'{rnet.outputs}')
+                continue
+            probs = refmodel.wellformed(c)
+            if probs:
+                acc.violation('into_bench/ill-formed', case, probs[:3])
+                continue
+            if {tt for tt, _ in rnet.gates.values()} - BENCH_TYPES:
+                acc.violation('into_bench/non-bench-type-remains', case, '')
+            rt = rnet.tables()
+            bad = [l for l in net.gates if rt.get(l) != ref[l]]
+            if bad:
+                acc.violation('into_bench/function-changed', case, f'gates {bad[:3]} (user gate named like a helper)')
+
+
+def check_deep(acc, pattern, L, storage):
+    """into_bench on a chain deeper than the recursion limit (stored operands-first and users-first)."""
+    c, net = space.deep_chain(pattern, L, storage)
+    ref = net.tables()
+    case = {'deep_chain': pattern, 'length': L, 'storage': storage}
+    acc.states += 1
+    acc.transitions += 1
+    acc.traces += 1
+    ok, _ = guarded(acc, 'into_bench', case, c.into_bench)
+    if not ok:
+        return
+    rnet = refmodel.abstract(c)
+    if rnet.inputs != net.inputs or rnet.outputs != net.outputs:
+        acc.violation('into_bench/interface-changed', case, '')
+        return
+    if {t for t, _ in rnet.gates.values()} - BENCH_TYPES:
+        acc.violation('into_bench/non-bench-type-remains', case, '')
+    probs = refmodel.wellformed(c, deep=False)
+    if probs:
+        acc.violation('into_bench/ill-formed', case, probs[:3])
+        return
+    rt = rnet.tables()
+    bad = [l for l in net.gates if rt.get(l) != ref[l]]
+    if bad:
+        acc.violation('into_bench/function-changed', case, f'gates {bad[:3]}')
+    acc.outcome('conv', ('deep', pattern, L, storage, len(rnet.gates) - len(net.gates)))
+
+
 def check_graphviz(n, gates, outs, acc):
     case = lambda: {**space.spec_json(n, gates, outs), 'graphviz': True}  # noqa: E731
     c = space.build(n, gates, outs)
@@ -197,6 +281,8 @@ def check_circuit(n, gates, acc, pol, nblocks):
             acc.states += 1
             check_one(n, gates, outs, blocks, acc, ref)
     check_graphviz(n, gates, pols[-1], acc)
+    if n:
+        check_name_collision(n, gates, pols[-1], acc)
     acc.sample({**space.spec_json(n, gates, pols[-1]), 'blocks': places[-1]})
 
 
@@ -211,7 +297,7 @@ class _NeverSeen:
         pass
 
 
-HIST_STARTS = ('S1', 'S2', 'S4', 'S5', 'S6')
+HIST_STARTS = ('S1', 'S2', 'S4', 'S5', 'S6', 'S7')
 
 
 def hist_monitor(c, start_name, hist, acc):
@@ -257,6 +343,8 @@ def hist_monitor(c, start_name, hist, acc):
 
 
 def run_task(task, acc):
+    if task.get('kind') == 'deep':
+        return check_deep(acc, task['pattern'], task['L'], task['storage'])
     if task.get('kind') == 'hist':
         from vmc import history
 
@@ -269,11 +357,15 @@ def run_task(task, acc):
 def replay(case, acc):
     if 'task' in case:
         return run_task(case['task'], acc)
+    if 'deep_chain' in case:
+        return check_deep(acc, case['deep_chain'], case['length'], case['storage'])
     if 'history' in case:
         from vmc import history
 
         return hist_monitor(history.replay(case['start'], case['history']), case['start'], case['history'], acc)
     n, gates, outs = space.spec_from_json(case)
+    if 'user_gate_named_like_a_helper' in case:
+        return check_name_collision(n, gates, outs, acc)
     if case.get('graphviz'):
         return check_graphviz(n, gates, outs, acc)
     check_one(n, gates, outs, case.get('blocks', []), acc)
